@@ -6,7 +6,7 @@ import numpy as np
 from classy_blocks.construct.array import Array
 from classy_blocks.construct.curves.curve import FunctionCurveBase
 from classy_blocks.construct.curves.interpolators import InterpolatorBase, LinearInterpolator, SplineInterpolator
-from classy_blocks.types import PointListType
+from classy_blocks.types import PointListType, PointType
 from classy_blocks.util import functions as f
 
 
@@ -58,6 +58,26 @@ class InterpolatedCurveBase(FunctionCurveBase, abc.ABC):
 
 class LinearInterpolatedCurve(InterpolatedCurveBase):
     _interpolator = LinearInterpolator
+
+    def get_closest_param(self, point: PointType) -> float:
+        """On a polyline the closest point is the best of exact projections to its segments
+        (a search in parameter space can end up on a wrong segment next to a sharp corner)"""
+        point = np.asarray(point, dtype="float")
+        points = self.array.points
+        params = self.function.params
+
+        best_distance, best_param = np.inf, float(self.bounds[0])
+
+        for i in range(len(points) - 1):
+            segment = points[i + 1] - points[i]
+            weight = min(max(np.dot(point - points[i], segment) / np.dot(segment, segment), 0.0), 1.0)
+            distance = f.norm(points[i] + weight * segment - point)
+
+            if distance < best_distance:
+                best_distance = distance
+                best_param = params[i] + weight * (params[i + 1] - params[i])
+
+        return float(min(max(best_param, self.bounds[0]), self.bounds[1]))
 
 
 class SplineInterpolatedCurve(InterpolatedCurveBase):
